@@ -232,6 +232,9 @@ func (fv *funcVerifier) evalCall(st *State, call *ast.CallExpr) []smt.Term {
 		if fv.prog.InRepo(fn.Pkg()) {
 			return fv.callRepo(st, call, fn)
 		}
+		if res, ok := fv.callSiteSpec(st, call, fn); ok {
+			return res
+		}
 		// external function without a model
 		var recvT smt.Term
 		_ = recvT
